@@ -23,7 +23,7 @@ from ..report import Ctx
 from ..selftest import Mutant
 
 PROP = "C16"
-TECHNIQUE = "static analysis: truth-table evaluation of the wildcard and reduction predicates + quantifier-direction analysis of the union arms + guard facts of the validator call and the Array wrapping + read-only (no-mutation) rule for the validator + union-member narrowing rule + forced/rebound validation-flag rule"
+TECHNIQUE = "static analysis: truth-table evaluation of the wildcard and reduction predicates + quantifier-direction analysis of the union arms + guard facts of the validator call and the Array wrapping + read-only (no-mutation) rule for the validator + union-member narrowing rule + forced/rebound validation-flag rule + cached-annotation freshness rule for _clear_internal_cache + totality of the comparison predicate (no raise / strict zip)"
 TY = "pipefunc.typing"
 VAL = "pipefunc._pipeline._validation"
 EXPLANATION = (
@@ -375,6 +375,8 @@ def check(ctx: Ctx) -> None:
 
 T, V, B = "pipefunc/typing.py", "pipefunc/_pipeline/_validation.py", "pipefunc/_pipeline/_base.py"
 MUTANTS = [
+    Mutant("strict-zip-in-predicate", "pipefunc/typing.py", "zip(incoming_args, required_args))", "zip(incoming_args, required_args, strict=True))", ("C16.5-wildcards",), why="round-4 seed C16/10"),
+    Mutant("output-annotation-survives-clearing", "pipefunc/_pipefunc.py", "        clear_cached_properties(self, PipeFunc)\n", "        kept = self.__dict__.get(\"output_annotation\")\n        clear_cached_properties(self, PipeFunc)\n        if kept is not None:\n            self.__dict__[\"output_annotation\"] = kept\n", ("C16.9-annotations-fresh",), why="round-4 seed C16/11"),
     Mutant("wrap-written-back", V, "                    output_type = Array[output_type]  # type: ignore[valid-type]\n", "                    output_type = Array[output_type]  # type: ignore[valid-type]\n                    output_types[parameter_name] = output_type\n", ("C16.7-readonly",), why="seeded C16/2"),
     Mutant("validate-regardless", B, "        if self.validate_type_annotations:\n            validate_consistent_type_annotations(self.graph)\n", "        validate_consistent_type_annotations(self.graph)\n", ("C16.1-flag",)),
     Mutant("flag-after-add", B, "        self.validate_type_annotations = validate_type_annotations\n        for f in functions:", "        self.validate_type_annotations = True\n        for f in functions:", ("C16.1-flag",)),
